@@ -150,4 +150,28 @@ func runC14(r *Run, rng *Rng, thorough bool) {
 		}
 	}
 	r.extra["exhaustive"] = true
+	for p := 1; p <= 2; p++ {
+		d := baseValid(rng, p)
+		d.Canon, d.Prof = canonOf(p), sp(canonOf(p))
+		normalise(&d)
+		if !conformant(&d) || hasBadUTF8(&d) {
+			continue
+		}
+		key := map[int]int64{1: -75002, 2: 2395}[p]
+		for _, wide := range []uint64{0x10000, 0x13000, 0x1ffff, 0x100003000, 1<<63 + 0x3000} {
+			t := tokenOf(&d)
+			setKey(t, key, nUint(wide))
+			r.ImplOnly(fmt.Sprintf("wide-on-the-wire/p%d", p), false, fmt.Sprintf("lc-wide p=%d %d", p, wide))
+			if c, err := psa.DecodeAndValidateClaimsFromCBOR(t.Bytes()); err == nil {
+				lc, _ := c.GetSecurityLifeCycle()
+				r.Fail("setter-getter", fmt.Sprintf("profile %d: a token carrying the lifecycle value %d (beyond 16 bits) is accepted and reads as 0x%04x", p, wide, lc))
+			}
+			j := jsonOf(&d)
+			j.set("psa-security-lifecycle", &JTree{Kind: jNumOther, Raw: fmt.Sprint(wide)})
+			if c, err := psa.DecodeAndValidateClaimsFromJSON([]byte(j.Text())); err == nil {
+				lc, _ := c.GetSecurityLifeCycle()
+				r.Fail("setter-getter", fmt.Sprintf("profile %d: a JSON token carrying the lifecycle value %d is accepted and reads as 0x%04x", p, wide, lc))
+			}
+		}
+	}
 }
